@@ -5,6 +5,6 @@ cd "$(dirname "$0")"
 for f in checks/C*.json; do
   id=$(basename $f .json)
   s=$(date +%s)
-  out=$(./check $id --tier $tier 2>/dev/null | grep -E "^(OK|VIOLATION|INCONCLUSIVE|ENGINE-MISMATCH|KNOWN-FINDING|ERROR)" | cut -c1-160 | tr '\n' '|')
+  out=$(timeout 3600 ./check $id --tier $tier 2>/dev/null | grep -E "^(OK|VIOLATION|INCONCLUSIVE|ENGINE-MISMATCH|KNOWN-FINDING|ERROR)" | cut -c1-160 | tr '\n' '|')
   echo "$id rc=$? $(( $(date +%s) - s ))s $out"
 done
